@@ -20,10 +20,11 @@
 //!     {0,1,u8::MAX,u16::MAX,u32::MAX,u64::MAX}), every 32-byte id string ({00..,
 //!     pattern, ff..}) and every DependentCost node ({LightOperation, HeavyOperation}) —
 //!     is overwritten one at a time (star) and in pairs (all leaf pairs × numeric values
-//!     {0,1,u32::MAX,u64::MAX}²; quick: 2 bases, thorough: every unit base + default with
-//!     the six-value domain) and deserialized into the typed value under test. The same
-//!     star (+ pairs) over the standalone types GasCostsValues V1..V7, GasCosts, Tx-,
-//!     Predicate-, Script- (V1,V2), Contract-, FeeParameters and DependentCost;
+//!     {0,1,u32::MAX,u64::MAX}²; quick: 2 bases; thorough: cp/script {V1/V1, V2/V2} × every
+//!     gas version (unit) + the default table = 15 bases, with the six-value domain) and
+//!     deserialized into the typed value under test. The same star (+ pairs) over the
+//!     standalone types GasCostsValues V1..V7, GasCosts, Tx-, Predicate-, Script- (V1,V2),
+//!     Contract-, FeeParameters and DependentCost;
 //!  E. for every ConsensusParameters value p of D:
 //!     `Transaction::upgrade_consensus_parameters(&p, …)` (empty and rich tx shell).
 //!
@@ -1045,6 +1046,8 @@ fn explore_params<T: ParamType>(ctx: &Ctx, bases: &[String], pair_bases: &[Strin
     let mut star = 0u64;
     let mut pairs = 0u64;
     let mut leaf_counts = BTreeMap::new();
+    let mut built = Vec::new();
+    // stars of every base first, the (much larger) pair spaces afterwards
     for name in bases {
         let mut acc = Acc::default();
         let b = param_base::<T>(name, &mut acc);
@@ -1058,8 +1061,11 @@ fn explore_params<T: ParamType>(ctx: &Ctx, bases: &[String], pair_bases: &[Strin
         );
         star += params_star::<T>(ctx, &b);
         if pair_bases.contains(name) {
-            pairs += params_pairs::<T>(ctx, &b, nums);
+            built.push(b);
         }
+    }
+    for b in &built {
+        pairs += params_pairs::<T>(ctx, b, nums);
     }
     report.insert(
         T::TYPE.to_string(),
@@ -1210,6 +1216,32 @@ fn explore(ctx: &Ctx) {
         }
     }
 
+    // ---- thorough: tx sub-product
+    if ctx.thorough() {
+        let total = tx_sub_count();
+        let seg: u64 = 1 << 18;
+        let mut done = 0u64;
+        while done < total {
+            if ctx.out_of_time() {
+                ctx.cap(format!("tx sub-product cut short by the time budget after {done} of {total} transactions"));
+                break
+            }
+            let n = seg.min(total - done);
+            let base = done;
+            space::par_chunks(
+                n,
+                2048,
+                Acc::default,
+                |i, acc| {
+                    check_tx_sub(base + i, acc);
+                },
+                |acc| acc.flush(ctx),
+            );
+            done += n;
+        }
+        ctx.set("tx_sub_product", json!({"count": total, "completed": done, "witness_points": SUB_W, "body_points": 2}));
+    }
+
     // ---- D + E. consensus parameters
     let discovered = discover_gas_versions();
     ctx.set(
@@ -1228,7 +1260,11 @@ fn explore(ctx: &Ctx) {
     let cp_pairs: Vec<String> = if ctx.quick() {
         vec![cp_base_name(1, 1, "V1:unit"), cp_base_name(2, 2, "default")]
     } else {
-        let mut v: Vec<String> = cp_all.iter().filter(|n| n.ends_with(":unit")).cloned().collect();
+        let mut v: Vec<String> = Vec::new();
+        for gas in GAS_VERSIONS {
+            v.push(cp_base_name(1, 1, &format!("V{gas}:unit")));
+            v.push(cp_base_name(2, 2, &format!("V{gas}:unit")));
+        }
         v.push(cp_base_name(2, 2, "default"));
         v
     };
@@ -1270,31 +1306,6 @@ fn explore(ctx: &Ctx) {
         }
     }
 
-    // ---- thorough: tx sub-product
-    if ctx.thorough() {
-        let total = tx_sub_count();
-        let seg: u64 = 1 << 18;
-        let mut done = 0u64;
-        while done < total {
-            if ctx.out_of_time() {
-                ctx.cap(format!("tx sub-product cut short by the time budget after {done} of {total} transactions"));
-                break
-            }
-            let n = seg.min(total - done);
-            let base = done;
-            space::par_chunks(
-                n,
-                2048,
-                Acc::default,
-                |i, acc| {
-                    check_tx_sub(base + i, acc);
-                },
-                |acc| acc.flush(ctx),
-            );
-            done += n;
-        }
-        ctx.set("tx_sub_product", json!({"count": total, "completed": done, "witness_points": SUB_W, "body_points": 2}));
-    }
 }
 
 fn replay_params<T: ParamType>(case: &Value, acc: &mut Acc) {
